@@ -9,14 +9,14 @@ use crate::tree::class::ClassName;
 
 #[derive(Debug, Clone, PartialEq)]
 pub struct Module {
-	pub(crate) name: ModuleName,
-	pub(crate) flags: ModuleFlags,
-	pub(crate) version: Option<JavaString>, // represents a module version...
-	pub(crate) requires: Vec<ModuleRequires>,
-	pub(crate) exports: Vec<ModuleExports>,
-	pub(crate) opens: Vec<ModuleOpens>,
-	pub(crate) uses: Vec<ClassName>,
-	pub(crate) provides: Vec<ModuleProvides>,
+	pub name: ModuleName,
+	pub flags: ModuleFlags,
+	pub version: Option<JavaString>, // represents a module version...
+	pub requires: Vec<ModuleRequires>,
+	pub exports: Vec<ModuleExports>,
+	pub opens: Vec<ModuleOpens>,
+	pub uses: Vec<ClassName>,
+	pub provides: Vec<ModuleProvides>,
 }
 
 make_string_str_like!(
@@ -201,6 +201,6 @@ impl From<ModuleOpensFlags> for u16 {
 
 #[derive(Debug, Clone, PartialEq)]
 pub struct ModuleProvides {
-	pub(crate) name: ClassName,
-	pub(crate) provides_with: Vec<ClassName>,
+	pub name: ClassName,
+	pub provides_with: Vec<ClassName>,
 }
